@@ -2282,6 +2282,8 @@ func unindent(s string, unindent int) string {
 }
 
 func computeIndent(s string) (int, bool) {
+	// With CRLF line endings every line still carries its "\r": a line of nothing else is blank.
+	s = strings.TrimSuffix(s, "\r")
 	if strings.TrimSpace(s) == "*/" {
 		return 0, false
 	}
